@@ -18,9 +18,11 @@ variable {σ : Type}
 /-! ## the source still has the audited control flow -/
 
 /-- the facts the hand model mirrors, as extracted from /repo on this run: five phases in this order, `pop(0)`, strict `>` in
-has_timedout, the handler loop of `_thread_func` unguarded.  (A different source makes this theorem, and the proofs below, fail.) -/
+has_timedout, `handler.loop` (per handler) and `_loop_func` inside a swallowing try in `_thread_func`, `queue_send` recording the
+destination on the handler.  (A different source makes this theorem, and the proofs below, fail.) -/
 theorem source_facts :
-    threadPhaseCodes = [0, 1, 2, 3, 4] ∧ sendPopsFront = true ∧ timeoutStrict = true ∧ timeoutZeroNever = true ∧ loopPhaseGuarded = false := by
+    threadPhaseCodes = [0, 1, 2, 3, 4] ∧ sendPopsFront = true ∧ timeoutStrict = true ∧ timeoutZeroNever = true ∧
+    loopPhaseGuarded = true ∧ loopFuncGuarded = true ∧ queueSendRecordsDest = true := by
   decide
 
 /-- the generated throttle gap is at least one period of the generated rate: `gap µs × rate ≥ 1 s` -/
@@ -159,43 +161,49 @@ theorem exception_isolated_on_handled (P : Prog σ) (inner : Inner σ) (h : Nat)
 theorem dispatch_never_stops_engine (P : Prog σ) (d : Dgram) (e : Engine σ) : (dispatch P d e).1.alive = e.alive :=
   dispatch_alive P d e
 
-/-- the only ways out of `_thread_func`: an exception from an `on_retry_failed` callback or from `_loop_func` (neither call is
-guarded in the source).  Without those, EVERY iteration leaves the engine running, for every environment: the next iteration runs. -/
-theorem engine_survives (P : Prog σ) (hnr : NoRaise P) (hlf : ∀ c, (P.loopFunc c).2 = false) (e : Engine σ) (env : Env) :
-    (engineIter P e env).1.alive = e.alive := by
+/-- **no handler exception ever stops the engine** (full statement): whatever `handle`, `on_handled`, `on_retry_failed` and
+`_loop_func` do — raise anywhere, at any nesting depth — EVERY iteration leaves the engine running, for every program and every
+environment: the next iteration runs.  (`handler.loop` and `_loop_func` are guarded in `_thread_func` since the fix of the
+engine-stop defect; the model follows the extracted `loopPhaseGuarded` / `loopFuncGuarded`.) -/
+theorem engine_survives (P : Prog σ) (e : Engine σ) (env : Env) : (engineIter P e env).1.alive = e.alive := by
   cases ha : e.alive with
   | false => unfold engineIter; simp [ha]
   | true =>
     rw [engineIter_unfold P e env ha]
-    have h2 : (afterLoop P e env).1.alive = true := by
-      unfold afterLoop; rw [(loopAll_misc P hnr _ _).2.2, afterRecv_alive]; exact ha
-    rw [if_pos h2]
-    unfold loopFuncPhase
-    simp [hlf]
-    exact h2
+    show (loopFuncPhase P (cleanup (afterLoop P e env).1)).1.alive = true
+    rw [loopFuncPhase_alive]
+    show (afterLoop P e env).1.alive = true
+    rw [afterLoop_alive]; exact ha
 
-theorem run_survives (P : Prog σ) (hnr : NoRaise P) (hlf : ∀ c, (P.loopFunc c).2 = false) :
-    ∀ (steps : List Step) (e : Engine σ), (run P e steps).1.alive = e.alive
+theorem run_survives (P : Prog σ) : ∀ (steps : List Step) (e : Engine σ), (run P e steps).1.alive = e.alive
   | [], _ => rfl
   | s :: ss, e => by
     unfold run
     simp only
-    rw [run_survives P hnr hlf ss]
+    rw [run_survives P ss]
     cases s with
-    | iter env => exact engine_survives P hnr hlf e env
+    | iter env => exact engine_survives P e env
     | queueSend h d => rfl
     | register h => rfl
     | create h => rfl
+
+/-- a raising `on_retry_failed` is swallowed too: the handler stays registered (it did not flag itself), the other handlers are
+still looped in the same iteration, nothing else changes -/
+theorem on_retry_failed_exception_isolated (P : Prog σ) (h : Nat) (e : Engine σ) (hf : (P.spec h).onFail = .raises)
+    (ht : timedOut P h e = true) (hr : (e.hs h).retries = 0) :
+    handlerLoop P h e = (e, [.timedOut h, .failed h], false) := by
+  unfold handlerLoop
+  simp [ht, hr, hf, loopPhaseGuarded_eq]
 
 /-! ## answered_removed -/
 
 /-- **answered**: if during the receive phase of an iteration the reply reaches handler `h` (`Answered`: flagged for removal,
 timeout reset by `handled()`), and no callback re-queues / re-creates / re-registers `h` (`Quiet`), then this iteration makes NO
-`queue_send` for `h` (no retransmission: the loop phase finds it fresh) and, the engine still running, `h` is gone from the
-handler list at this iteration's clean-up. -/
+`queue_send` for `h` (no retransmission: the loop phase finds it fresh) and `h` is gone from the handler list at this
+iteration's clean-up. -/
 theorem answered_removed (P : Prog σ) (h : Nat) (hq : Quiet P h) (e : Engine σ) (env : Env) (ha : e.alive = true)
     (hans : Answered h (afterRecv P e env).1) :
-    enqsOf h (engineIter P e env).2 = [] ∧ ((engineIter P e env).1.alive = true → h ∉ (engineIter P e env).1.handlers) := by
+    enqsOf h (engineIter P e env).2 = [] ∧ h ∉ (engineIter P e env).1.handlers := by
   obtain ⟨_, _, _, _, n0⟩ := afterSend_facts P h e env
   obtain ⟨qf, _⟩ := afterRecv_q P h hq e env
   obtain ⟨s2, n2⟩ := loopAll_fresh P h (afterRecv P e env).1.handlers (afterRecv P e env).1 hans.2
@@ -205,22 +213,17 @@ theorem answered_removed (P : Prog σ) (h : Nat) (hq : Quiet P h) (e : Engine σ
     show ((loopAll P _ _).1.hs h).remove = true
     rw [s2]; exact hans.1
   rw [engineIter_unfold P e env ha]
-  split
-  · refine ⟨?_, fun _ => ?_⟩
-    · show enqsOf h (_ ++ (_ ++ (_ ++ _))) = []
-      rw [enqsOf_append, enqsOf_append, enqsOf_append, e0, qf.noEnq, n2']
-      unfold enqsOf; rw [(loopFuncPhase_facts P _).2.2.2.2]; rfl
-    · show h ∉ (loopFuncPhase P (cleanup (afterLoop P e env).1)).1.handlers
-      rw [(loopFuncPhase_facts P _).1]
-      unfold cleanup
-      simp only [List.mem_filter]
-      intro x
-      rw [hrem] at x
-      simp at x
-  · refine ⟨?_, fun x => ?_⟩
-    · show enqsOf h (_ ++ (_ ++ _)) = []
-      rw [enqsOf_append, enqsOf_append, e0, qf.noEnq, n2']; rfl
-    · rename_i hdead; exact absurd x hdead
+  refine ⟨?_, ?_⟩
+  · show enqsOf h (_ ++ (_ ++ (_ ++ _))) = []
+    rw [enqsOf_append, enqsOf_append, enqsOf_append, e0, qf.noEnq, n2']
+    unfold enqsOf; rw [(loopFuncPhase_facts P _).2.2.2.2]; rfl
+  · show h ∉ (loopFuncPhase P (cleanup (afterLoop P e env).1)).1.handlers
+    rw [(loopFuncPhase_facts P _).1]
+    unfold cleanup
+    simp only [List.mem_filter]
+    intro x
+    rw [hrem] at x
+    simp at x
 
 /-- the reply reaches `h` when `h` is the first handler accepting the datagram and its `handle` just marks it (the shape of every
 reply handler of the library; `on_handled` may then do anything `Quiet`) -/
@@ -270,19 +273,19 @@ theorem mem_sents_pops : ∀ (o : List Out) (x : Nat × Nat), x ∈ sents o → 
     | failed g => simp only [sents] at h; simpa [pops] using mem_sents_pops r x h
     | died => simp only [sents] at h; simpa [pops] using mem_sents_pops r x h
 
-/-- **no further transmission once answered** — the full statement needs one hypothesis the code does not enforce: that no
-transmission of `h` is still PENDING in the send queue when the reply is handled (`hnoq`).  Then, from the answering iteration on,
+/-- **no further transmission once answered** — PARTIAL.  Full statement of the property: "once its reply is handled, nothing of
+`h` is ever transmitted again" (no hypothesis on the queue).  Proved here: the same under one hypothesis the code does not enforce,
+that no transmission of `h` is still PENDING in the send queue when the reply is handled (`hnoq`).  Then, from the answering iteration on,
 for any environment and any number of further steps, nothing of `h` is ever transmitted and `h` stays unregistered.
 (Without `hnoq` the statement is false for the model and for the code: a retransmission that `retry` queued just before the reply
-arrived — and that the throttle or a backlog kept in the queue — is still transmitted after the handler is gone; see the `example`
-below and the harness finding `answered:retransmission-after-answer`.) -/
-theorem answered_no_further_transmission (P : Prog σ) (h : Nat) (hq : Quiet P h) (e : Engine σ) (env : Env) (ha : e.alive = true)
+arrived — and that the throttle or a backlog kept in the queue — is still transmitted after the handler is gone: the witness is the
+`example` (3) below, confirmed on the real engine as the recorded finding `answered:retransmission-after-answer`.) -/
+theorem answered_no_further_transmission_partial (P : Prog σ) (h : Nat) (hq : Quiet P h) (e : Engine σ) (env : Env) (ha : e.alive = true)
     (hans : Answered h (afterRecv P e env).1) (hnoq : ∀ x ∈ e.sendq, x.1 ≠ h)
-    (halive : (engineIter P e env).1.alive = true)
     (steps : List Step) (hsteps : ∀ s ∈ steps, s.mentions h = false) :
     (∀ x ∈ sents (run P (engineIter P e env).1 steps).2, x.1 ≠ h) ∧ h ∉ (run P (engineIter P e env).1 steps).1.handlers := by
   obtain ⟨hen, hrem⟩ := answered_removed P h hq e env ha hans
-  have hgone := hrem halive
+  have hgone := hrem
   -- nothing of h in the queue after the answering iteration
   have hq1 : ∀ x ∈ (engineIter P e env).1.sendq, x.1 ≠ h := by
     intro x hx
@@ -305,17 +308,18 @@ theorem answered_no_further_transmission (P : Prog σ) (h : Nat) (hq : Quiet P h
 
 /-! ## retry_exact -/
 
-/-- **retry**: a request handler `h` with timeout `T > 0`, `N` retries and the default `on_retry_failed`, already transmitted once
-to `dst` (so `last_destination = dst`) with its timer started at `s0`, that nobody answers (`StepOK`: no datagram of the run, at
-any nesting level, is accepted by `h`) and that no callback or client call touches (`Quiet`, `StepOK`), in an engine that cannot die
-(`NoDeath`) and whose iterations advance the clock by at most `Δ` each ("iterates at least once per `Δ`"; in the code
+/-- **retry**: a request handler `h` with timeout `T > 0`, `N` retries and the default `on_retry_failed`, queued for `dst` (so
+`last_destination = dst`: `queue_send` records it; the initial transmission may still be pending in the queue, all queue entries
+of `h` go to `dst`) with its timer started at `s0`, that nobody answers (`StepOK`: no datagram of the run, at
+any nesting level, is accepted by `h`) and that no callback or client call touches (`Quiet`, `StepOK`), in an engine
+whose iterations advance the clock by at most `Δ` each ("iterates at least once per `Δ`"; in the code
 `Δ` = socket timeout 50 ms + processing):  for EVERY such run, with `k` = number of `queue_send` calls made for `h`,
   * `k ≤ N` and every one of them is `(h, dst)` — never more than `N` retransmissions, all to the original destination;
   * while `h` is registered: `k + retries left = N` and the clock is at most `s0 + (N+1)·(T+Δ)`;
   * once `h` is not registered: `k = N` exactly, and the clock is beyond `s0 + (N+1)·T` (it was not removed early).
 Hence at any time later than `s0 + (N+1)(T+Δ)` the handler is gone after exactly `N` retransmissions (1 + N datagrams on the wire
 with the initial one, by `fifo_sends`); `retry_last_timeout` says it goes in the very iteration that sees the last timeout. -/
-theorem retry_exact (P : Prog σ) (h T N dst s0 Δ : Nat) (hq : Quiet P h) (hnd : NoDeath P)
+theorem retry_exact (P : Prog σ) (h T N dst s0 Δ : Nat) (hq : Quiet P h)
     (hT : (P.spec h).timeout = T) (hTpos : 0 < T) (hf : (P.spec h).onFail = .remove)
     (e : Engine σ) (ha : e.alive = true) (hreg : h ∈ e.handlers)
     (hst : e.hs h = ⟨s0, N, false, some dst⟩) (hclk : e.clock ≤ s0 + T)
@@ -332,7 +336,7 @@ theorem retry_exact (P : Prog σ) (h T N dst s0 Δ : Nat) (hq : Quiet P h) (hnd 
     refine ⟨ha, hqd, fun _ => ?_, fun x => absurd hreg x⟩
     rw [hst]
     exact ⟨rfl, rfl, rfl, hclk, Nat.le_refl _, Nat.le_refl _⟩
-  obtain ⟨inv, hall⟩ := rinv_run P h T N dst s0 Δ hq hnd hT hTpos hf steps e 0 inv0 hok
+  obtain ⟨inv, hall⟩ := rinv_run P h T N dst s0 Δ hq hT hTpos hf steps e 0 inv0 hok
   simp only [Nat.zero_add] at inv
   refine ⟨?_, hall, fun hm => ?_, fun hm => inv.gone hm⟩
   · by_cases hm : h ∈ (run P e steps).1.handlers
@@ -345,11 +349,85 @@ theorem retry_exact (P : Prog σ) (h T N dst s0 Δ : Nat) (hq : Quiet P h) (hnd 
     generalize ((run P e steps).1.hs h).retries * (T + Δ) = X at *
     omega
 
+/-- **exactly 1 + N datagrams on the wire** — no "already transmitted" hypothesis: `h` is a FRESH request (constructed at `s0`,
+`last_destination` None), registered, not yet queued; the client calls `queue_send(h, dst)` and then anything allowed by `StepOK`
+happens (in particular its first timeout may precede its first transmission: short timeout, throttle, backlog).  Then every
+`queue_send` for `h` (the client's and each `retry`'s) carries `dst`, and once `h` is removed and nothing of it is left in the
+queue, the datagrams transmitted for `h` are exactly `1 + N`, all to `dst`, none failed. -/
+theorem retry_exact_on_the_wire (P : Prog σ) (h T N dst s0 Δ : Nat) (hq : Quiet P h)
+    (hT : (P.spec h).timeout = T) (hTpos : 0 < T) (hf : (P.spec h).onFail = .remove) (hsend : (P.spec h).sendable = true)
+    (e : Engine σ) (ha : e.alive = true) (hreg : h ∈ e.handlers)
+    (hst : e.hs h = ⟨s0, N, false, none⟩) (hclk : e.clock ≤ s0 + T) (hnoq : ∀ x ∈ e.sendq, x.1 ≠ h)
+    (steps : List Step) (hok : ∀ s ∈ steps, StepOK P h Δ s)
+    (hgone : h ∉ (run P e (.queueSend h (some dst) :: steps)).1.handlers)
+    (hdrained : ∀ x ∈ (run P e (.queueSend h (some dst) :: steps)).1.sendq, x.1 ≠ h) :
+    enqsOf h (run P e (.queueSend h (some dst) :: steps)).2 = List.replicate (1 + N) (h, some dst) ∧
+    ((sents (run P e (.queueSend h (some dst) :: steps)).2).filter (fun x => x.1 == h)).map (fun x => (x.1, some x.2)) =
+      List.replicate (1 + N) (h, some dst) ∧
+    (∀ x ∈ failedSends (run P e (.queueSend h (some dst) :: steps)).2, x.1 ≠ h) := by
+  -- the state after the client's queue_send: destination recorded, one entry for h in the queue
+  have hrun : run P e (.queueSend h (some dst) :: steps) =
+      ((run P (e.enq h (some dst)) steps).1, [.enq h (some dst)] ++ (run P (e.enq h (some dst)) steps).2) := rfl
+  have hst1 : (e.enq h (some dst)).hs h = ⟨s0, N, false, some dst⟩ := by
+    simp only [Engine.enq, upd_self, recordDest, queueSendRecordsDest_eq, hst]
+    rfl
+  have hq1 : ∀ x ∈ (e.enq h (some dst)).sendq, x.1 = h → x.2 = some dst := by
+    intro x hx hxh
+    simp only [Engine.enq, List.mem_append, List.mem_singleton] at hx
+    rcases hx with hx | hx
+    · exact absurd hxh (hnoq x hx)
+    · rw [hx]
+  obtain ⟨_, hall, _, hg⟩ := retry_exact P h T N dst s0 Δ hq hT hTpos hf (e.enq h (some dst)) ha hreg hst1 hclk hq1 steps hok
+  rw [hrun] at hgone hdrained ⊢
+  simp only at hgone hdrained
+  have hlen := (hg hgone).1
+  have henq : enqsOf h ([Out.enq h (some dst)] ++ (run P (e.enq h (some dst)) steps).2) = List.replicate (1 + N) (h, some dst) := by
+    rw [enqsOf_append]
+    have h1 : enqsOf h [Out.enq h (some dst)] = [(h, some dst)] := by simp [enqsOf, enqs]
+    rw [h1, List.eq_replicate_iff]
+    refine ⟨by simp [hlen]; omega, fun x hx => ?_⟩
+    rcases List.mem_append.1 hx with hx | hx
+    · simpa using hx
+    · exact hall x hx
+  -- fifo, restricted to h: what was queued for h = what was popped for h
+  have hf2 := fifo_sends P e (.queueSend h (some dst) :: steps)
+  rw [hrun] at hf2
+  have hfil := congrArg (List.filter (fun x : Nat × Option Nat => x.1 == h)) hf2
+  simp only [List.filter_append] at hfil
+  have z1 : e.sendq.filter (fun x => x.1 == h) = [] := by
+    rw [List.filter_eq_nil_iff]; intro x hx; simpa using hnoq x hx
+  have z2 : (run P (e.enq h (some dst)) steps).1.sendq.filter (fun x => x.1 == h) = [] := by
+    rw [List.filter_eq_nil_iff]; intro x hx; simpa using hdrained x hx
+  have hpops : (pops ([Out.enq h (some dst)] ++ (run P (e.enq h (some dst)) steps).2)).filter (fun x => x.1 == h) =
+      List.replicate (1 + N) (h, some dst) := by
+    have : (enqs ([Out.enq h (some dst)] ++ (run P (e.enq h (some dst)) steps).2)).filter (fun x => x.1 == h) =
+        enqsOf h ([Out.enq h (some dst)] ++ (run P (e.enq h (some dst)) steps).2) := rfl
+    rw [z1, z2] at hfil
+    simp only [List.nil_append, List.append_nil] at hfil
+    rw [← hfil]
+    exact henq
+  -- none of h's sends failed: a failed pop of h would be (h, none) or h without send_bytes
+  have hnf : ∀ x ∈ failedSends ([Out.enq h (some dst)] ++ (run P (e.enq h (some dst)) steps).2), x.1 ≠ h := by
+    intro x hx hxh
+    have hok' := run_fails P (.queueSend h (some dst) :: steps) e
+    rw [hrun] at hok'
+    have hp := failedSends_sub_pops _ x hx
+    have hxf : x ∈ (pops ([Out.enq h (some dst)] ++ (run P (e.enq h (some dst)) steps).2)).filter (fun x => x.1 == h) :=
+      List.mem_filter.2 ⟨hp, by simpa using hxh⟩
+    rw [hpops] at hxf
+    have hx2 : x = (h, some dst) := (List.mem_replicate.1 hxf).2
+    rcases hok' x hx with h1 | h1
+    · rw [hx2] at h1; simp only at h1; rw [hsend] at h1; cases h1
+    · rw [hx2] at h1; cases h1
+  refine ⟨henq, ?_, hnf⟩
+  rw [← popsOf_eq_sentsOf h _ hnf]
+  exact hpops
+
 /-- **removed within one iteration of the (N+1)-th timeout**: in the iteration whose loop phase sees `h` timed out with no retry
 left, `h` is flagged by the default on_retry_failed and dropped by the clean-up of that same iteration; with a retry left it is
 re-queued once, to its recorded destination, its timeout restarting at the loop-phase clock `c`; not timed out (age ≤ T, the
 comparison is strict), nothing happens. -/
-theorem retry_last_timeout (P : Prog σ) (h : Nat) (hq : Quiet P h) (hnd : NoDeath P) (hf : (P.spec h).onFail = .remove)
+theorem retry_last_timeout (P : Prog σ) (h : Nat) (hq : Quiet P h) (hf : (P.spec h).onFail = .remove)
     (e : Engine σ) (env : Env) (ha : e.alive = true) (hun : ∀ d, env.dgram = some d → Unanswered P h d)
     (hreg : h ∈ e.handlers) (hnq : ∀ x ∈ e.sendq, x.1 ≠ h) :
     let c := e.clock + env.dtPre + env.dtRecv
@@ -359,7 +437,7 @@ theorem retry_last_timeout (P : Prog σ) (h : Nat) (hq : Quiet P h) (hnd : NoDea
       enqsOf h (engineIter P e env).2 = [(h, (e.hs h).lastDest)] ∧
       (engineIter P e env).1.hs h = { e.hs h with retries := (e.hs h).retries - 1, start := c }) ∧
     (¬ (0 < T ∧ T < c - (e.hs h).start) → (engineIter P e env).1.hs h = e.hs h ∧ enqsOf h (engineIter P e env).2 = []) := by
-  obtain ⟨s, hs, _, _, hst, henq, hmem, _⟩ := iter_summary P h hq hnd hf e env ha hun
+  obtain ⟨s, hs, _, _, hst, henq, hmem, _⟩ := iter_summary P h hq hf e env ha hun
   have hs' : s = e.hs h := by
     rcases hs with hs | ⟨d, hd, _⟩
     · exact hs
@@ -546,13 +624,6 @@ example : (sents (run exP { exE with handlers := [0, 1, 2] } [.queueSend 1 (some
 example : handlerLoop exP 0 { exE with clock := 10 ^ 12 } = ({ exE with clock := 10 ^ 12 }, [], false) :=
   timeout_zero_never exP 0 _ rfl
 
-theorem exP_noDeath : NoDeath exP :=
-  ⟨fun g => by
-    unfold exP exSpec
-    match g with
-    | 0 | 1 | 2 | 3 | 4 | 5 => simp
-    | _ + 6 => simp, fun _ => rfl⟩
-
 theorem exP_quiet1 : Quiet exP 1 := by
   intro g c d
   unfold exP exSpec
@@ -586,8 +657,8 @@ example : enqsOf 1 (engineIter exP exE ⟨0, 1000, some (.pkt (.raw 2))⟩).2 = 
 /-- ... and from then on nothing of request 1 is transmitted, whatever arrives (here: two more datagrams it used to accept) -/
 example : ∀ x ∈ sents (run exP (engineIter exP exE ⟨0, 1000, some (.pkt (.raw 2))⟩).1
       [.iter ⟨30000, 0, some (.raw 2)⟩, .iter ⟨30000, 0, some (.pkt (.raw 1))⟩, idle 200000]).2, x.1 ≠ 1 :=
-  (answered_no_further_transmission exP 1 exP_quiet1 exE ⟨0, 1000, some (.pkt (.raw 2))⟩ rfl (by unfold Answered; decide)
-    (by intro x hx; cases hx) (by decide) _ (by decide)).1
+  (answered_no_further_transmission_partial exP 1 exP_quiet1 exE ⟨0, 1000, some (.pkt (.raw 2))⟩ rfl (by unfold Answered; decide)
+    (by intro x hx; cases hx) _ (by decide)).1
 
 example : 1 ∉ (run exP { exE with handlers := [0, 2] } [.iter ⟨30000, 0, some (.raw 2)⟩, idle 200000]).1.handlers :=
   (removed_stays_silent exP 1 exP_quiet1 { exE with handlers := [0, 2] } _ (by decide) (by decide)).1
@@ -609,32 +680,55 @@ theorem exSteps_ok : ∀ s ∈ exSteps, StepOK exP 1 50000 s := by
     decide
 
 example : (run exP exR exSteps).1.alive = true := by
-  rw [run_survives exP exP_noDeath.1 exP_noDeath.2]; rfl
+  rw [run_survives exP]; rfl
 
 /-- one iteration at the 300002-th microsecond: age 100001 > T with no retry left → gone in this very iteration -/
 example : 1 ∉ (engineIter exP { exR with clock := 300001, hs := upd exR.hs 1 ⟨200001, 0, false, some 7⟩ } ⟨1, 0, none⟩).1.handlers :=
-  ((retry_last_timeout exP 1 exP_quiet1 exP_noDeath rfl { exR with clock := 300001, hs := upd exR.hs 1 ⟨200001, 0, false, some 7⟩ }
+  ((retry_last_timeout exP 1 exP_quiet1 rfl { exR with clock := 300001, hs := upd exR.hs 1 ⟨200001, 0, false, some 7⟩ }
     ⟨1, 0, none⟩ rfl (fun d hd => by cases hd) (by decide) (by intro x hx; cases hx)).1 (by decide)).1
 
 /-- all hypotheses of `retry_exact` hold here, and its conclusion is sharp: exactly 2 re-queues to 7, then removed (at 450 ms,
 inside (300, 450] = (s0 + 3T, s0 + 3(T+Δ)]) -/
 example :
     (enqsOf 1 (run exP exR exSteps).2).length = 2 ∧ 100000 * 3 < (run exP exR exSteps).1.clock :=
-  (retry_exact exP 1 100000 2 7 0 50000 exP_quiet1 exP_noDeath rfl (by decide) rfl exR rfl (by decide) rfl (by decide)
+  (retry_exact exP 1 100000 2 7 0 50000 exP_quiet1 rfl (by decide) rfl exR rfl (by decide) rfl (by decide)
     (by intro x hx; cases hx) exSteps exSteps_ok).2.2.2 (by decide)
 
 example : enqsOf 1 (run exP exR exSteps).2 = [(1, some 7), (1, some 7)] ∧ (run exP exR exSteps).1.handlers = [0, 2] ∧
     (run exP exR exSteps).1.clock = 450001 := by decide
 
-/-- the model mirrors two quirks of the code (both confirmed on the real engine by the harness):
-(1) handler 4 (T = 15 ms, shorter than the throttle period) is queued behind another datagram and times out BEFORE its
-first transmission: `retry` queues `(handler, last_destination = None)`, the entry is popped and dropped — of the 1 + 2 datagrams
-only 2 reach the wire although 2 retries were consumed -/
-example :
-    let r := run exP exE [.queueSend 1 (some 7), .queueSend 4 (some 9), idle 20001, idle 20001, idle 20001, idle 20001]
-    failedSends r.2 = [(4, none)] ∧ sents r.2 = [(1, 7), (4, 9), (4, 9)] ∧ 4 ∉ r.1.handlers ∧ (enqsOf 4 r.2).length = 1 + 2 := by decide
+theorem exP_quiet4 : Quiet exP 4 := by
+  intro g c d
+  unfold exP exSpec
+  match g with
+  | 0 => simp [Act.touches]
+  | 1 =>
+    simp only
+    by_cases hd : (d == Dgram.raw 2) = true <;> simp [hd, Act.touches]
+  | 2 => simp
+  | 3 => simp [Act.touches]
+  | 4 => simp
+  | 5 => simp
+  | _ + 6 => simp
 
-/-- (3) a retransmission still pending in the queue when the reply arrives is transmitted after the handler is gone: request 1
+/-- (1) [the former defect `retry-lost:timeout-before-first-transmission`, fixed] handler 4 (T = 15 ms, shorter than the throttle
+period, N = 2) is queued behind another datagram and times out BEFORE its first transmission; `queue_send` recorded its
+destination, so `retry` re-queues it with that destination: all 1 + 2 datagrams reach the wire, nothing fails -/
+example :
+    let r := run exP { exE with sendq := [(1, some 7)] } [.queueSend 4 (some 9), idle 20001, idle 20001, idle 20001, idle 20001]
+    failedSends r.2 = [] ∧ sents r.2 = [(1, 7), (4, 9), (4, 9), (4, 9)] ∧ 4 ∉ r.1.handlers ∧
+    r.2.take 5 = [.enq 4 (some 9), .sent 1 7 20001, .timedOut 4, .enq 4 (some 9), .sent 4 9 40002] := by decide
+
+/-- ... which is an instance of `retry_exact_on_the_wire` (all its hypotheses hold here) -/
+example :
+    ((sents (run exP { exE with sendq := [(1, some 7)] } (.queueSend 4 (some 9) :: List.replicate 4 (idle 20001))).2).filter
+      (fun x => x.1 == 4)).map (fun x => (x.1, some x.2)) = List.replicate (1 + 2) (4, some 9) :=
+  (retry_exact_on_the_wire exP 4 15000 2 9 0 20001 exP_quiet4 rfl (by decide) rfl rfl { exE with sendq := [(1, some 7)] } rfl
+    (by decide) rfl (by decide) (by decide) (List.replicate 4 (idle 20001))
+    (by intro s hs; rw [List.mem_replicate] at hs; rw [hs.2]; exact ⟨by decide, fun d hd => by cases hd⟩)
+    (by decide) (by decide)).2.1
+
+/-- (3) [finding `answered:retransmission-after-answer`, the witness of `answered_no_further_transmission_partial`] a retransmission still pending in the queue when the reply arrives is transmitted after the handler is gone: request 1
 (transmitted at 20001 µs) times out at 120002 µs and is re-queued; handler 2's datagram left 1 µs earlier, so the throttle holds the
 retransmission back; in the next iteration the reply (verb 2) is handled and request 1 removed; 20001 µs later the stale
 retransmission is transmitted all the same -/
@@ -643,12 +737,21 @@ example :
       .iter ⟨100000, 1, none⟩, .iter ⟨1000, 0, some (.raw 2)⟩, idle 20001, idle 20001]
     sents r.2 = [(1, 7), (2, 8), (1, 7), (3, 7)] ∧ r.1.handlers = [0, 2, 3] := by decide
 
-/-- (2) an `on_retry_failed` that raises is not caught in `_thread_func`: the engine stops -/
+/-- (2) [the former defect `engine-stopped:on_retry_failed-raises`, fixed] an `on_retry_failed` that raises is swallowed: the
+engine keeps running, the handler (which did not flag itself) stays registered and fails again at the next iteration -/
 def exSpecX (h : Nat) : Spec Nat := if h = 1 then { exSpec 1 with retries := 0, onFail := .raises } else exSpec h
 
-example : (run { exP with spec := exSpecX } { exE with hs := upd exE.hs 1 ⟨0, 0, false, some 7⟩ } [idle 100001, idle 1]).1.alive = false ∧
-    (run { exP with spec := exSpecX } { exE with hs := upd exE.hs 1 ⟨0, 0, false, some 7⟩ } [idle 100001, idle 1]).2 =
-      [.timedOut 1, .failed 1, .died] := by decide
+example :
+    let r := run { exP with spec := exSpecX } { exE with handlers := [0, 1, 2], hs := upd exE.hs 1 ⟨0, 0, false, some 7⟩ } [idle 100001, idle 1]
+    r.1.alive = true ∧ r.1.handlers = [0, 1, 2] ∧ r.2 = [.timedOut 1, .failed 1, .timedOut 1, .failed 1] := by decide
+
+example : handlerLoop { exP with spec := exSpecX } 1 { exE with clock := 100001, hs := upd exE.hs 1 ⟨0, 0, false, some 7⟩ } =
+    ({ exE with clock := 100001, hs := upd exE.hs 1 ⟨0, 0, false, some 7⟩ }, [.timedOut 1, .failed 1], false) :=
+  on_retry_failed_exception_isolated _ 1 _ (by decide) (by decide) (by decide)
+
+/-- a raising `_loop_func` is swallowed as well -/
+example : (engineIter { exP with loopFunc := fun c => (c + 1, true) } exE ⟨1, 1, none⟩).1.alive = true :=
+  engine_survives _ exE _
 
 /-- handshake: on a 100-byte block, a 78-byte request (2 segments), budget 1: the version request times out once, a duplicate
 SVERS and a timeout precede CHCUR, the first block attempt loses its final segment (segment 0 arrives, then the timeout; the
